@@ -10,6 +10,10 @@ def _core(out, tier, seed, prop, quick_mc, thorough_mc, quick_rand, thorough_ran
     for cat in ("gfa1", "gfa2"):
         jobs["rand-" + cat] = core.random_jobs(cat, nr, depth, seed)
         jobs["doc-" + cat] = core.doc_jobs(cat, nr, max(3, depth // 2), seed + 1)
+        # the other validation levels (C18: the level never changes the result on valid input)
+        for vl in (0, 2, 3):
+            jobs["doc-%s-v%d" % (cat, vl)] = core.doc_jobs(cat, max(20, nr // 5), max(3, depth // 2), seed + 2 + vl,
+                                                         vlevel=vl, kind="docv%d" % vl)
     core.run_pipeline(out, jobs, mc, prop)
     out.assumptions += [
         "TLC 1.8 and the TLA+ semantics of spec/Gfa.tla, TraceGfa.tla",
